@@ -800,6 +800,33 @@ def run(tier, seed):
             stale.append(("lim", llines[i][:2000], out[:2000], lmodel[i][:2000]))
     ck.sample({"lim_case": llines[3], "impl": limpl[3] if len(limpl) > 3 else None})
 
+    # ------------------------------------------------------------ 2b. parser nesting limit: real parser vs the skeleton model
+    PD = {"paren": lambda n: "return " + "(" * n + "1" + ")" * n, "neg": lambda n: "return " + "- " * n + "1",
+          "pow": lambda n: "return " + "1^" * n + "1", "tbl": lambda n: "return " + "{" * n + "}" * n,
+          "fn": lambda n: "return " + "function() return " * n + "1" + " end" * n, "do": lambda n: "do " * n + "end " * n,
+          "binop": lambda n: "return " + "1+" * n + "1"}
+    pdc = [(k, n) for k in PD for n in ([1, 2, 50, 100, 150] + list(range(190, 206)) + [250, 1000])]
+    pl = ["p%d %s %d" % (i, k, n) for i, (k, n) in enumerate(pdc)]
+    rc2, pm, e2 = vlib.run_lines(oracle, ["pd"], pl, timeout=600)
+    rcg, pg, eg = vlib.run_lines(gvh, ["codelen"], ["p%d %s" % (i, lua_hex(PD[k](n))) for i, (k, n) in enumerate(pdc)], timeout=600)
+    for i, (k, n) in enumerate(pdc):
+        if i >= len(pm) or i >= len(pg):
+            ck.violation("parser-depth engines crashed", {"kind": "crash", "stderr": (e2 + eg)[-1000:]}, no_input=True)
+            break
+        ck.case(pl[i], True)
+        go_ok = pg[i].split()[1] not in ("err", "panic")
+        mo_ok = pm[i].split()[1] == "ok"
+        ck.count("pd:%s:%s" % (k, "ok" if go_ok else "err"))
+        if pg[i].split()[1] == "panic":
+            ck.violation("parser panics on nesting template %s:%d" % (k, n), {"kind": "Go!=S", "engine": "lua", "source": PD[k](n)[:4000], "opts": ""})
+        elif go_ok != mo_ok:
+            # pow/tbl/binop beyond the register budget are rejected later ("not enough registers"): only a parse acceptance the model
+            # rejects, or a rejection below the limit that is not a register error, is a difference
+            if go_ok or n <= 150:
+                stale.append(("pd", pl[i], pg[i], pm[i]))
+            else:
+                ck.count("pd:rejected-later-stage")
+
     # ------------------------------------------------------------ 3. exploration
     ck.log("lim done: %d cases" % len(lim))
     lr = LuaRunner(ck, gvh)
